@@ -440,6 +440,7 @@ func checkC03Pairing(c *Ctx, et interface{}) {
 	checkAssignValidation(c)
 	checkSeatLookups(c, "R8")
 	checkJoinOperation(c, "R7")
+	checkPlayerRecordWritersLocked(c, "R7", "IsIn", "the seated-in flag")
 	checkReserveBranches(c, "R5")
 	checkCreationWiring(c, "R5")
 	checkTableLookups(c, "R5", "FindPlayerIdx")
